@@ -1003,3 +1003,215 @@ Lemma example_yields_ok :
   snd (take_first (init (inline b)) 2) = LOk [TVal (VInt 1); TVal (VInt 2)] /\
   snd (send (init (inline b))) = STask /\ is_stopped (fst (send (init (inline b)))) = false.
 Proof. vm_compute. repeat split; reflexivity. Qed.
+
+(* ------------------------------------------------------------------ the payload of a Value is opaque *)
+Definition rl_tres (f : val -> val) (t : tres) : tres := match t with TVal v => TVal (f v) | _ => t end.
+Definition rl_step (f : val -> val) (st : step) : step := match st with GValue v => GValue (f v) | _ => st end.
+Definition rl_ltask (f : val -> val) (t : ltask) : ltask := match t with LDone r => LDone (rl_tres f r) | _ => t end.
+Definition rl_state (f : val -> val) (s : gstate) : gstate :=
+  mkG (map (rl_step f) (rest s)) (pulls s) (sent s) (rl_ltask f (last_task s)) (is_stopped s).
+Definition rl_yielded (f : val -> val) (y : yielded) : yielded := match y with YValue v => YValue (f v) | _ => y end.
+Definition rl_sres (f : val -> val) (r : sres) : sres := match r with SConst v => SConst (f v) | _ => r end.
+Definition rl_nv (f : val -> val) (x : nv) : nv := match x with NVItem t => NVItem (rl_tres f t) | _ => x end.
+Definition rl_lres (f : val -> val) (r : lres) : lres := match r with LOk l => LOk (map (rl_tres f) l) | _ => r end.
+Definition rl_handle (f : val -> val) (h : handle) : handle :=
+  match h with HConst v => HConst (f v) | HDone t => HDone (rl_tres f t) | _ => h end.
+Definition rl_res (f : val -> val) (r : res) : res :=
+  match r with RConst v => RConst (f v) | RItem t => RItem (rl_tres f t) | RList l => RList (map (rl_tres f) l) | _ => r end.
+Definition rl_sh (f : val -> val) (sh : gstate * handle) : gstate * handle := (rl_state f (fst sh), rl_handle f (snd sh)).
+Definition rl_out (f : val -> val) (x : res * Z * bool) : res * Z * bool :=
+  let '(r, p, st) := x in (rl_res f r, p, st).
+
+Lemma gen_send_rl f s x :
+  gen_send (rl_state f s) x = (rl_state f (fst (gen_send s x)), rl_yielded f (snd (gen_send s x))).
+Proof. destruct s as [r p se lt st]. unfold gen_send, rl_state. cbn. destruct r as [|[o|v|e] b]; reflexivity. Qed.
+
+Lemma get_one_value_rl f s x :
+  get_one_value (rl_state f s) x = (rl_state f (fst (get_one_value s x)), rl_yielded f (snd (get_one_value s x))).
+Proof.
+  unfold get_one_value. rewrite gen_send_rl. destruct (gen_send s x) as [s1 y]. cbn [fst snd].
+  destruct y; reflexivity.
+Qed.
+
+Lemma send_rl f s : send (rl_state f s) = (rl_state f (fst (send s)), rl_sres f (snd (send s))).
+Proof.
+  unfold send. change (last_task (rl_state f s)) with (rl_ltask f (last_task s)).
+  change (is_stopped (rl_state f s)) with (is_stopped s).
+  destruct (last_task s) eqn:E; cbn [rl_ltask]; try reflexivity;
+    (destruct (is_stopped s); [reflexivity|]; rewrite get_one_value_rl;
+     destruct (get_one_value s (TVal VNone)) as [s1 y]; cbn [fst snd]; destruct y; reflexivity).
+Qed.
+
+Lemma inner_loop_rl f : forall fuel s yr,
+  inner_loop fuel (rl_state f s) yr = (rl_state f (fst (inner_loop fuel s yr)), rl_tres f (snd (inner_loop fuel s yr))).
+Proof.
+  induction fuel as [|fuel IH]; intros s yr; [reflexivity|].
+  cbn [inner_loop]. rewrite get_one_value_rl. destruct (get_one_value s yr) as [s1 y]. cbn [fst snd].
+  destruct y as [|e|v|o]; cbn [rl_yielded]; try reflexivity.
+  destruct o; try reflexivity; apply IH.
+Qed.
+
+Lemma compute_rl f s : compute (rl_state f s) = (rl_state f (fst (compute s)), rl_tres f (snd (compute s))).
+Proof.
+  unfold compute. change (last_task (rl_state f s)) with (rl_ltask f (last_task s)).
+  change (rest (rl_state f s)) with (map (rl_step f) (rest s)). rewrite map_length.
+  destruct (last_task s) as [|first|r] eqn:E; cbn [rl_ltask]; try reflexivity.
+  destruct first; try reflexivity;
+    (rewrite inner_loop_rl; destruct (inner_loop _ s _) as [s1 r]; reflexivity).
+Qed.
+
+Lemma next_value_rl f s : next_value (rl_state f s) = (rl_state f (fst (next_value s)), rl_nv f (snd (next_value s))).
+Proof.
+  unfold next_value. rewrite send_rl. destruct (send s) as [s1 r]. cbn [fst snd].
+  destruct r as [e|v|]; cbn [rl_sres].
+  - destruct (e =? E_STOPITER); reflexivity.
+  - reflexivity.
+  - rewrite compute_rl. destruct (compute s1) as [s2 t]. cbn [fst snd]. destruct t; reflexivity.
+Qed.
+
+Lemma list_loop_rl f : forall fuel s data,
+  list_loop fuel (rl_state f s) (map (rl_tres f) data) =
+  (rl_state f (fst (list_loop fuel s data)), rl_lres f (snd (list_loop fuel s data))).
+Proof.
+  induction fuel as [|fuel IH]; intros s data; [reflexivity|].
+  cbn [list_loop]. rewrite next_value_rl. destruct (next_value s) as [s1 x]. cbn [fst snd].
+  destruct x as [|e|t]; cbn [rl_nv]; try reflexivity.
+  destruct t; cbn [rl_tres]; try apply IH.
+  - rewrite <- IH. rewrite map_app. reflexivity.
+  - rewrite <- IH. rewrite map_app. reflexivity.
+Qed.
+
+Lemma take_loop_rl f : forall fuel s i n ret,
+  take_loop fuel (rl_state f s) i n (map (rl_tres f) ret) =
+  (rl_state f (fst (take_loop fuel s i n ret)), rl_lres f (snd (take_loop fuel s i n ret))).
+Proof.
+  induction fuel as [|fuel IH]; intros s i n ret; [reflexivity|].
+  cbn [take_loop]. rewrite next_value_rl. destruct (next_value s) as [s1 x]. cbn [fst snd].
+  destruct x as [|e|t]; cbn [rl_nv]; try reflexivity.
+  destruct t; cbn [rl_tres]; try apply IH.
+  - destruct (i =? n - 1); [cbn; rewrite map_app; reflexivity|]. rewrite <- IH. rewrite map_app. reflexivity.
+  - destruct (i =? n - 1); [cbn; rewrite map_app; reflexivity|]. rewrite <- IH. rewrite map_app. reflexivity.
+Qed.
+
+Lemma fuel_of_rl f s : fuel_of (rl_state f s) = fuel_of s.
+Proof. unfold fuel_of. cbn [rest rl_state]. rewrite map_length. reflexivity. Qed.
+
+Lemma list_of_generator_rl f s :
+  list_of_generator (rl_state f s) = (rl_state f (fst (list_of_generator s)), rl_lres f (snd (list_of_generator s))).
+Proof. unfold list_of_generator. rewrite fuel_of_rl. apply (list_loop_rl f (fuel_of s) s []). Qed.
+
+Lemma take_first_rl f s n :
+  take_first (rl_state f s) n = (rl_state f (fst (take_first s n)), rl_lres f (snd (take_first s n))).
+Proof.
+  unfold take_first. destruct (n <=? 0); [reflexivity|]. rewrite fuel_of_rl. apply (take_loop_rl f (fuel_of s) s 0 n []).
+Qed.
+
+Lemma step_op_rl f sh o :
+  step_op (rl_sh f sh) o = (rl_sh f (fst (step_op sh o)), rl_res f (snd (step_op sh o))).
+Proof.
+  destruct sh as [s h]. unfold rl_sh. cbn [fst snd]. destruct o as [| | |n]; cbn [step_op].
+  - rewrite send_rl. destruct (send s) as [s1 r]. cbn [fst snd]. destruct r; reflexivity.
+  - destruct h as [|v| |t]; cbn [rl_handle]; try reflexivity.
+    + rewrite compute_rl. destruct (compute s) as [s1 t]. cbn [fst snd]. destruct t; reflexivity.
+    + destruct t; reflexivity.
+  - rewrite list_of_generator_rl. destruct (list_of_generator s) as [s1 r]. cbn [fst snd]. destruct r; reflexivity.
+  - rewrite take_first_rl. destruct (take_first s n) as [s1 r]. cbn [fst snd]. destruct r; reflexivity.
+Qed.
+
+Lemma run_relabel f : forall ops sh,
+  run (rl_sh f sh) ops = (rl_sh f (fst (run sh ops)), map (rl_out f) (snd (run sh ops))).
+Proof.
+  induction ops as [|o ops IH]; intros sh; [reflexivity|].
+  cbn [run]. rewrite step_op_rl. destruct (step_op sh o) as [sh1 r]. cbn [fst snd].
+  rewrite IH. destruct (run sh1 ops) as [sh2 rs]. cbn [fst snd map rl_out].
+  destruct sh1; reflexivity.
+Qed.
+
+(* the body is not told either: what it receives at its yields, how often it is resumed, what the generator's
+   task waits for first and the exhaustion flag do not depend on the payloads *)
+Lemma relabel_unobserved f ops sh :
+  let s1 := fst (fst (run (rl_sh f sh) ops)) in
+  let s0 := fst (fst (run sh ops)) in
+  sent s1 = sent s0 /\ pulls s1 = pulls s0 /\ is_stopped s1 = is_stopped s0 /\
+  length (rest s1) = length (rest s0) /\ pending s1 = pending s0 /\
+  (forall first, last_task s0 = LPending first -> last_task s1 = LPending first).
+Proof.
+  cbn zeta. rewrite run_relabel. cbn [fst snd rl_sh rl_state sent pulls is_stopped rest last_task].
+  repeat split; try reflexivity.
+  - apply map_length.
+  - unfold pending, rl_state. cbn [last_task]. generalize (last_task (fst (fst (run sh ops)))). intros lt. destruct lt; reflexivity.
+  - intros first E. rewrite E. reflexivity.
+Qed.
+
+(* relabelling the payloads of a tree body *)
+Fixpoint tmap (f : val -> val) (g : gstep) : gstep :=
+  match g with
+  | NValue v => NValue (f v)
+  | NNest b => NNest (map (tmap f) b)
+  | _ => g
+  end.
+
+Definition tflat (g : gstep) : bool := match g with NNest _ => false | _ => true end.
+
+Lemma inline_flat_rl f : forall b,
+  forallb tflat b = true -> inline (map (tmap f) b) = map (rl_step f) (inline b).
+Proof.
+  unfold inline. induction b as [|g b IH]; intros H; [reflexivity|].
+  cbn in H. apply andb_true_iff in H as [H1 H2]. cbn [map flat_map]. rewrite map_app, (IH H2). f_equal.
+  destruct g; try discriminate; reflexivity.
+Qed.
+
+(* what the correspondence evaluates, on bodies without nested generators: relabelling the payloads of the body
+   relabels the results and changes nothing else (pulls, is_stopped per op, values received by the body) *)
+Lemma run_case_relabel f b ops :
+  forallb tflat b = true ->
+  run_case (map (tmap f) b) ops = (map (rl_out f) (fst (run_case b ops)), snd (run_case b ops)).
+Proof.
+  intros H. unfold run_case. rewrite (inline_flat_rl f b H).
+  change (init (map (rl_step f) (inline b)), HNone) with (rl_sh f (init (inline b), HNone)).
+  rewrite run_relabel. destruct (run (init (inline b), HNone) ops) as [sh rs]. reflexivity.
+Qed.
+
+Lemma tmap_clean_values f : forall g,
+  tclean1 (tmap f g) = tclean1 g /\ tvalues1 (tmap f g) = map f (tvalues1 g).
+Proof.
+  fix IH 1. intros g. destruct g as [o|v|e|b|w]; cbn [tmap tclean1 tvalues1]; auto.
+  induction b as [|g b [I1 I2]]; [auto|]. destruct (IH g) as [A1 A2].
+  cbn [map forallb flat_map]. rewrite A1, I1, A2, I2, map_app. auto.
+Qed.
+
+Lemma tmap_clean_values_list f : forall b,
+  forallb tclean1 (map (tmap f) b) = forallb tclean1 b /\
+  flat_map tvalues1 (map (tmap f) b) = map f (flat_map tvalues1 b).
+Proof.
+  induction b as [|g b [I1 I2]]; [auto|]. destruct (tmap_clean_values f g) as [A1 A2].
+  cbn [map forallb flat_map]. rewrite A1, I1, A2, I2, map_app. auto.
+Qed.
+
+(* nested generators of any depth (bodies that cannot fail): the payloads travel through
+   `x = yield task; yield Value(x)` of every level untouched *)
+Lemma nested_relabel f b n :
+  forallb tclean1 b = true ->
+  snd (list_of_generator (init (inline (map (tmap f) b)))) = rl_lres f (snd (list_of_generator (init (inline b)))) /\
+  snd (take_first (init (inline (map (tmap f) b))) n) = rl_lres f (snd (take_first (init (inline b)) n)).
+Proof.
+  intros H. destruct (tmap_clean_values_list f b) as [C V].
+  assert (H' : forallb tclean1 (map (tmap f) b) = true) by (rewrite C; exact H).
+  destruct (nested_list_take b n H) as [-> ->]. destruct (nested_list_take _ n H') as [-> ->].
+  rewrite V. cbn [rl_lres]. rewrite firstn_map, !map_map. split; reflexivity.
+Qed.
+
+(* satisfiable / computes: labels of future payloads, relabelled to other labels *)
+Definition example_payloads : list gstep :=
+  [NValue (VTuple [VInt (-1); VInt 1]); NValue (VTuple [VInt (-1); VInt 2]); NAwait (TVal (VInt 7));
+   NValue (VTuple [VInt (-1); VInt 3]); NNest [NValue (VTuple [VInt (-1); VInt 4]); NAwait (TVal VNone)]].
+
+Lemma example_payloads_ok :
+  let b := example_payloads in
+  let f := fun v => match v with VTuple [VInt (-1); VInt k] => VInt (2000 + k) | _ => v end in
+  forallb tclean1 b = true /\
+  snd (take_first (init (inline b)) 3) =
+    LOk [TVal (VTuple [VInt (-1); VInt 1]); TVal (VTuple [VInt (-1); VInt 2]); TVal (VTuple [VInt (-1); VInt 3])] /\
+  snd (list_of_generator (init (inline (map (tmap f) b)))) =
+    LOk [TVal (VInt 2001); TVal (VInt 2002); TVal (VInt 2003); TVal (VInt 2004)].
+Proof. vm_compute. repeat split; reflexivity. Qed.
